@@ -371,6 +371,8 @@ impl<'a> Interp<'a> {
                 let leaves = self.leaves();
                 leaves[pick_idx(step.parent as u32, leaves.len())].clone()
             }
+            // the tip of the heaviest fully valid chain (what an honest miner extends)
+            3 => self.best_valid_tip(),
             _ => {
                 // fork from one of the most recent 12 blocks (or genesis)
                 let n = self.tree.order.len();
